@@ -154,8 +154,10 @@ def lnd_case(arg):
                 sp = [[cx * x for x in p] for p in pa]
                 same = eq(sp, [list(p) for p in pb]) if pow2 else eq_close(sp, [list(p) for p in pb], 1e-9, 1e-9 * cx)
                 if len(pa) != len(pb) or not same:
+                    res["ulp_level"] = len(pa) == len(pb) and eq_close(sp, [list(p) for p in pb], 1e-12, 0.0)
                     return fail("points", f"ask({n}): original {pa} but rescaled learner chose {pb}")
                 if not eq(ia, ib):
+                    res["ulp_level"] = eq_close(ia, ib, 1e-12, 0.0)
                     return fail("improvements", f"ask({n}) improvements {ia} vs {ib}")
                 out += [p for p in pa if p not in out]
             elif out:
@@ -166,6 +168,7 @@ def lnd_case(arg):
                     a.tell(p, y)
                     b.tell(tuple(cx * x for x in p), cy * y)
             if a.npoints > dim + 1 and not eq(a.loss(), b.loss()):
+                res["ulp_level"] = eq_close(a.loss(), b.loss(), 1e-12, 0.0)
                 return fail("loss", f"loss() {a.loss()!r} vs rescaled {b.loss()!r}")
     except Exception as e:
         res["aborted"] = type(e).__name__
@@ -183,17 +186,23 @@ def run(ctx):
     for r in r1:
         steps += r["steps"]
         dist[f"l1d:{r['loss']}:{'pow2' if r['pow2'] else 'generic'}"] = dist.get(f"l1d:{r['loss']}:{'pow2' if r['pow2'] else 'generic'}", 0) + 1
-        if r["fail"]:
+        if r["fail"] and not r["pow2"]:
+            dist["l1d:generic_factor_drift(not deciding)"] = dist.get("l1d:generic_factor_drift(not deciding)", 0) + 1
+        elif r["fail"]:
             cl, det = r["fail"]
-            failures.append({"clause": "l1d_" + cl, "signature": f"C12.l1d_{cl}{'' if r['pow2'] else '.generic_factor'}", "detail": det,
+            failures.append({"clause": "l1d_" + cl, "signature": f"C12.l1d_{cl}", "detail": det,
                              "replay": {"l1d": [r["seed"], r["pow2"]]}})
     for r in r2:
         steps += r["steps"]
         k = f"lnd{r['dim']}:{'pow2' if r['pow2'] else 'generic'}" + (":aborted:" + r["aborted"] if r.get("aborted") else "")
         dist[k] = dist.get(k, 0) + 1
-        if r["fail"]:
+        if r["fail"] and not r["pow2"]:
+            dist["lnd:generic_factor_drift(not deciding)"] = dist.get("lnd:generic_factor_drift(not deciding)", 0) + 1
+        elif r["fail"]:
             cl, det = r["fail"]
-            sig = f"C12.lnd_{cl}{'' if r['pow2'] else '.generic_factor'}"
+            sig = f"C12.lnd_{cl}"
+            if r.get("ulp_level"):
+                sig = "C12.lnd:ulp_level_difference"
             if r["dim"] * math.log(r["cx"]) < -45:
                 # volume of a simplex of the down-scaled domain below e^-50: Triangulation.orientation's absolute cut
                 sig = "C12.lnd:orientation_absolute_logdet_cut"
